@@ -158,6 +158,61 @@ pub fn run(case: &Value) -> Value {
                 Err(e) => json!({"ok": false, "doc_err": format!("{:?}", e)}),
             }
         }
+        "expanded_name" => {
+            // translator validation (C10): AsExpandedName of the document element, or of its first attribute that is not a namespace declaration
+            use xml_dom::{AsExpandedName, Document, NamedNodeMap, Node};
+            match xml_dom::XmlDocument::from_raw(input) {
+                Ok((_, doc)) => {
+                    let e = doc.document_element().unwrap();
+                    let r = if case["kind"].as_str() == Some("attribute") {
+                        let attrs = match e.attributes() { Some(a) => a, None => return json!({"ok": false, "err": "no attributes"}) };
+                        let mut found = None;
+                        for i in 0..attrs.length() {
+                            if let Some(a) = attrs.item(i) {
+                                let n = a.node_name();
+                                if n != "xmlns" && !n.starts_with("xmlns:") { found = Some(a); break; }
+                            }
+                        }
+                        match found { Some(a) => a.as_expanded_name(), None => return json!({"ok": false, "err": "no plain attribute"}) }
+                    } else {
+                        e.as_expanded_name()
+                    };
+                    match r {
+                        Ok(Some((l, p, u))) => json!({"ok": true, "name": [Some(l), p, u]}),
+                        Ok(None) => json!({"ok": true, "name": null}),
+                        Err(er) => json!({"ok": false, "err": format!("{:?}", er)}),
+                    }
+                }
+                Err(e) => json!({"ok": false, "doc_err": format!("{:?}", e)}),
+            }
+        }
+        "ns_history" => {
+            // translator validation (C10): a history of add_ns / remove_ns calls on a fresh XPath context, then get_ns_uri(query)
+            let mut c = xml_xpath::eval::model::Context::default();
+            for step in case["ops"].as_array().cloned().unwrap_or_default() {
+                let p = step[1].as_str();
+                if step[0].as_str() == Some("add") { c.add_ns(p, step[2].as_str().unwrap_or("")); } else { c.remove_ns(p); }
+            }
+            let got = c.get_ns_uri(case["query"].as_str()).map(|s| s.to_string());
+            json!({"ok": true, "uri": got})
+        }
+        "nametest" => {
+            // translator validation (C10): the query `input` on `doc` under the caller's bindings [[prefix, uri], ..]
+            let doc = case["doc"].as_str().unwrap_or("<r/>");
+            match xml_dom::XmlDocument::from_raw(doc) {
+                Ok((_, d)) => {
+                    let mut ctx = xml_xpath::eval::model::Context::default();
+                    for b in case["ns"].as_array().cloned().unwrap_or_default() {
+                        ctx.add_ns(b[0].as_str(), b[1].as_str().unwrap_or(""));
+                    }
+                    match xml_xpath::query(d, input, &mut ctx) {
+                        Ok(v) => json!({"ok": true, "value": format!("{}", v)}),
+                        Err(e) => json!({"ok": false, "err": format!("{:?}", e).chars().take(160).collect::<String>()}),
+                    }
+                }
+                Err(e) => json!({"ok": false, "doc_err": format!("{:?}", e)}),
+            }
+        }
         "attr_order" => {
             // set_attribute on the first child of the root, then: all nodes and attributes in the order XPath sorts them,
             // on the edited document and on a fresh parse of its serialization
